@@ -314,7 +314,9 @@ Definition tune3 (allow : bool) (x : stok3) : triple + eerr :=
 
 (** ** 4. the local rdflib graph of the cache *)
 
-Inductive lterm := LU (iri : str) | LL (lex dt : str) | LB (id : str).
+(** a literal of the local graph: lexical form, datatype, language tag (rdflib:
+    a literal has a language XOR a datatype; [dt] is [[]] when there is a tag) *)
+Inductive lterm := LU (iri : str) | LL (lex dt : str) (lang : option str) | LB (id : str).
 Definition ltriple := (lterm * lterm * lterm)%type.
 Definition l_s (x : ltriple) : lterm := fst (fst x).
 Definition l_p (x : ltriple) : lterm := snd (fst x).
@@ -323,7 +325,7 @@ Definition l_o (x : ltriple) : lterm := snd x.
 Definition lterm_eqb (a b : lterm) : bool :=
   match a, b with
   | LU x, LU y => str_eqb x y
-  | LL l1 d1, LL l2 d2 => str_eqb l1 l2 && str_eqb d1 d2
+  | LL l1 d1 g1, LL l2 d2 g2 => str_eqb l1 l2 && str_eqb d1 d2 && opt_str_eqb g1 g2
   | LB x, LB y => str_eqb x y
   | _, _ => false
   end.
@@ -337,8 +339,46 @@ Definition lterm_of_obj (o : obj) : lterm + eerr :=
   match o with
   | ON (Node KIri i) => inl (LU i)
   | ON (Node KBnode b) => inl (LB b)
-  | OL c ty => if lsg_no_normalize || str_eqb ty c_STRING_TYPE || str_eqb ty c_LANG_STRING_TYPE then inl (LL c ty)
+  | OL c ty => if lsg_no_normalize || str_eqb ty c_STRING_TYPE || str_eqb ty c_LANG_STRING_TYPE then inl (LL c ty None)
                else inr XUnmodelled
+  end.
+
+(** what rdflib accepts as a language tag: [[a-zA-Z]+(-[a-zA-Z0-9]+)*], the whole string *)
+Definition is_alpha (c : ascii) : bool :=
+  let n := nat_of_ascii c in (Nat.leb 65 n && Nat.leb n 90) || (Nat.leb 97 n && Nat.leb n 122).
+Definition valid_langtag (l : str) : bool :=
+  match split (Str "-") l with
+  | [] => false
+  | first :: rest =>
+    negb (str_eqb first []) && forallb is_alpha first &&
+    forallb (fun p => negb (str_eqb p []) && forallb (fun c => is_alpha c || is_digit c) p) rest
+  end.
+
+(** [_lexical_form_and_lang(model_elem, raw_token)] (new text of
+    [_turn_obj_into_rdflib_element], flag [lsg_token_literal]): the lexical
+    form between the first and the last quote of the token and its well-formed
+    language tag; [None]: the token is not a quoted literal, the model literal
+    is used as before *)
+Definition lexical_form_and_lang (raw : str) : option (str * option str) :=
+  let q := rfind dq raw in
+  if negb (prefixb dq raw) || (q =? 0)%Z then None
+  else
+    let suffix := slice_from raw (q + 1) in
+    let tag := slice_from suffix 1 in
+    Some (slice raw 1 q, if prefixb (Str "@") suffix && valid_langtag tag then Some tag else None).
+
+(** the object of [add_triple]: [_turn_obj_into_rdflib_element(obj, raw_token=a_triple[_O])] *)
+Definition lterm_of_obj_tok (o : obj) (raw : str) : lterm + eerr :=
+  match o with
+  | OL c ty =>
+    if lsg_token_literal then
+      match lexical_form_and_lang raw with
+      | Some (lex, Some l) => inl (LL lex [] (Some l))
+      | Some (lex, None) => inl (LL lex ty None)       (* [normalize=False] in this text *)
+      | None => lterm_of_obj o
+      end
+    else lterm_of_obj o
+  | _ => lterm_of_obj o
   end.
 
 (** [RdflibSgraph.add_triple]: the three tokens, tuned without the number
@@ -353,7 +393,7 @@ Definition store3 (x : stok3) : ltriple + eerr :=
       match tune_token false false (add_corners_if_uri (tk_o x)) with
       | inr e => inr e
       | inl o =>
-        match lterm_of_obj (ON s), lterm_of_obj o with
+        match lterm_of_obj (ON s), lterm_of_obj_tok o (tk_o x) with
         | inl ls, inl lo => inl (ls, LU p, lo)
         | inr e, _ => inr e
         | _, inr e => inr e
@@ -368,7 +408,8 @@ Definition store3 (x : stok3) : ltriple + eerr :=
 Definition tok_of_lterm (t : lterm) : str :=
   match t with
   | LU i => Str "<" ++ i ++ Str ">"
-  | LL lex dt => if lsg_quotes_literals then dq ++ lex ++ dq ++ Str "^^<" ++ dt ++ Str ">" else lex
+  | LL lex dt None => if lsg_quotes_literals then dq ++ lex ++ dq ++ Str "^^<" ++ dt ++ Str ">" else lex
+  | LL lex _ (Some l) => if lsg_quotes_literals then dq ++ lex ++ dq ++ Str "@" ++ l else lex
   | LB b => b
   end.
 Definition tok3_of_l (x : ltriple) : stok3 := (tok_of_lterm (l_s x), tok_of_lterm (l_p x), tok_of_lterm (l_o x)).
@@ -642,6 +683,20 @@ Definition classes_query (tau : str) : query := (QClasses, rc_false tau).
 Definition all_classes (G : sgraph) (O : oracles) (pass : nat) (tau : str) : list str :=
   map value_of_term (dedup sterm_eqb (map so (o_ord O pass (classes_query tau) (tau_match G (rc_false tau))))).
 
+(** [produce_shape_map_according_to_input], all_classes_mode: the classes come
+    from [sgraph.yield_classes_with_instances()] -- no argument: the classes of
+    [RDF_TYPE], whatever the instantiation property (finding C15-F9) -- or from
+    [yield_classes_with_instances(instantiation_property=...)] *)
+Definition tau_all (c : cfg) : str := if all_classes_passes_tau then c_tau c else c_RDF_TYPE.
+
+(** The selector of a class is the text [SPARQL "select ?s where { ?s <tau> <class> . ... } LIMIT k"]
+    handed to [NodeSelectorParser._parse_sparql_expression], which removes the
+    keyword with [raw_selector.replace("SPARQL", "")]: every occurrence, also
+    inside the two IRIs (finding C15-F10; no occurrence can straddle the
+    brackets) -- or the leading keyword only ([Selectors.strip_sparql_kw]'s flag) *)
+Definition kw_strip (s : str) : str :=
+  if c_sel_sparql_strip_once then s else replace_all c_sel_sparql_kw [] s.
+
 (** How far pass 1 ([InstanceTracker.track_instances]) reads: everything,
     [n] triples and then stops ([InstancesCapException]), or [n] triples and
     then dies ([AttributeError]: [.iri] of a [Literal]).  Mirrors
@@ -756,11 +811,11 @@ Record passout := { po_events : list event; po_st : lst; po_ok : bool }.
     then the yielder, read as far as the consumer reads *)
 Definition class_pass (c : cfg) (G : sgraph) (O : oracles) (pass : nat) (st : lst)
            (all_mode : bool) (classes : list str) (reader : list triple -> consume) : passout :=
-  let head := if all_mode then [EQ (classes_query (c_tau c))] else [] in
-  let cls := if all_mode then all_classes G O pass (c_tau c) else classes in
-  let items := class_items cls in
+  let head := if all_mode then [EQ (classes_query (tau_all c))] else [] in
+  let cls := if all_mode then all_classes G O pass (tau_all c) else classes in
+  let items := class_items (map kw_strip cls) in
   let sel := sel_events (eff_limit c) items in
-  let targets := collect G O pass pass (c_tau c) (eff_limit c) items in
+  let targets := collect G O pass pass (kw_strip (c_tau c)) (eff_limit c) items in
   let bs := yielder_blocks c G O pass st targets in
   (* an empty shape map has no sgraph: no triples (old shape: [None.yield_p_o_triples_of_target_nodes]) *)
   let evs := match items with
@@ -831,7 +886,7 @@ Definition stored_shape_ok (t : striple) (s : str) (lt : ltriple) : bool :=
   lterm_eqb (l_s lt) (LU s) && lterm_eqb (l_p lt) (LU (sp t)) &&
   match so t, l_o lt with
   | SN (NI o), LU o' => str_eqb o o'
-  | SLit _ _ _, LL _ _ => true
+  | SLit _ _ _, LL _ _ _ => true
   | _, _ => false
   end.
 
@@ -873,6 +928,19 @@ Definition tau_ok (tau : str) (t : striple) : bool :=
 
 Definition C15_dom (allow : bool) (tau : str) (G : sgraph) : bool :=
   forallb (fun t => stmt_ok allow t && tau_ok tau t) G.
+
+(** ** 10b. the names of the class modes: the keyword removal leaves the
+    instantiation property and the class names as they are, and
+    all_classes_mode lists the classes of the instantiation property *)
+Definition kw_unchanged (s : str) : bool := str_eqb (kw_strip s) s.
+
+Definition C15_names_dom (c : cfg) (m : tmode15) (G : sgraph) : bool :=
+  match m with
+  | MClasses cl => kw_unchanged (c_tau c) && forallb kw_unchanged cl
+  | MAll => kw_unchanged (c_tau c) && str_eqb (tau_all c) (c_tau c) &&
+            forallb (fun t => negb (str_eqb (sp t) (rc_false (c_tau c))) || kw_unchanged (value_of_term (so t))) G
+  | MShapeMap _ => true
+  end.
 
 (** ** 11. an executable set oracle: order the elements by a given ranking
     (the harness passes the order observed at [_collect_every_target_node]) *)
